@@ -29,18 +29,20 @@ type edit struct {
 }
 
 type fileInst struct {
-	fset  *token.FileSet
-	file  *ast.File
-	info  *types.Info
-	pkg   *types.Package
-	src   []byte
-	base  int
-	name  string // short name for sites
-	edits []edit
-	seq   int
-	tokN  int
-	stats map[string]int
-	warn  []string
+	fset      *token.FileSet
+	file      *ast.File
+	info      *types.Info
+	pkg       *types.Package
+	src       []byte
+	base      int
+	name      string // short name for sites
+	edits     []edit
+	seq       int
+	tokN      int
+	stats     map[string]int
+	warn      []string
+	frozen    [][2]int          // spans replaced from the original text
+	mapWrites map[ast.Expr]bool // index expressions that are assigned to
 }
 
 func (fi *fileInst) off(p token.Pos) int { return fi.fset.Position(p).Offset }
@@ -59,6 +61,61 @@ func (fi *fileInst) insert(p token.Pos, text string) {
 func (fi *fileInst) replace(p, e token.Pos, text string) {
 	fi.seq++
 	fi.edits = append(fi.edits, edit{fi.off(p), fi.off(e), text, fi.seq})
+	fi.frozen = append(fi.frozen, [2]int{fi.off(p), fi.off(e)})
+}
+
+// inFrozen reports whether p lies inside a span that a replacement has already rewritten
+// from the original text (edits inside it would overlap).
+func (fi *fileInst) inFrozen(p token.Pos) bool {
+	o := fi.off(p)
+	for _, f := range fi.frozen {
+		if o >= f[0] && o < f[1] {
+			return true
+		}
+	}
+	return false
+}
+
+// sharedMap reports whether e denotes a map that other goroutines can reach by the same
+// path: a struct field or a package-level variable of map type.
+func (fi *fileInst) sharedMap(e ast.Expr) bool {
+	t := fi.info.TypeOf(e)
+	if t == nil {
+		return false
+	}
+	if _, ok := t.Underlying().(*types.Map); !ok {
+		return false
+	}
+	switch x := e.(type) {
+	case *ast.SelectorExpr:
+		if sel := fi.info.Selections[x]; sel != nil && sel.Kind() == types.FieldVal {
+			return true
+		}
+		if v, ok := fi.info.Uses[x.Sel].(*types.Var); ok && v.Parent() == v.Pkg().Scope() {
+			return true // pkg.Var
+		}
+	case *ast.Ident:
+		if v, ok := fi.info.Uses[x].(*types.Var); ok && v.Pkg() != nil && v.Parent() == v.Pkg().Scope() {
+			return true
+		}
+	}
+	return false
+}
+
+// mapAccess wraps the map operand of an index expression, delete call or range clause in
+// simrt.MapR / simrt.MapW (identity functions that report the access to the simulator's
+// lock-discipline checker).
+func (fi *fileInst) mapAccess(e ast.Expr, write bool) {
+	if !fi.sharedMap(e) || fi.inFrozen(e.Pos()) {
+		return
+	}
+	fn := "simrt.MapR("
+	if write {
+		fn = "simrt.MapW("
+	}
+	fi.insert(e.Pos(), fn)
+	fi.insert(e.End(), fmt.Sprintf(", %q)", fi.site(e.Pos())))
+	fi.stats["mapacc"]++
 }
 
 func (fi *fileInst) text(n ast.Node) string { return string(fi.src[fi.off(n.Pos()):fi.off(n.End())]) }
@@ -372,6 +429,10 @@ func (fi *fileInst) mapRange(r *ast.RangeStmt) {
 		kk = fmt.Sprintf("__vk%d", fi.tokN)
 	}
 	m := fi.text(r.X)
+	if fi.sharedMap(r.X) {
+		m = fmt.Sprintf("simrt.MapR(%s, %q)", m, fi.site(r.X.Pos()))
+		fi.stats["mapacc"]++
+	}
 	var head string
 	if lessFn != "" {
 		okv := fmt.Sprintf("__vo%d", fi.tokN)
@@ -551,9 +612,28 @@ func (fi *fileInst) goStmt(g *ast.GoStmt) {
 }
 
 func (fi *fileInst) run() {
+	fi.mapWrites = map[ast.Expr]bool{}
 	ast.Inspect(fi.file, func(n ast.Node) bool {
 		switch x := n.(type) {
+		case *ast.AssignStmt:
+			for _, l := range x.Lhs {
+				fi.mapWrites[l] = true
+			}
+		case *ast.IncDecStmt:
+			fi.mapWrites[x.X] = true
+		}
+		return true
+	})
+	ast.Inspect(fi.file, func(n ast.Node) bool {
+		switch x := n.(type) {
+		case *ast.IndexExpr:
+			fi.mapAccess(x.X, fi.mapWrites[x])
 		case *ast.CallExpr:
+			if id, ok := x.Fun.(*ast.Ident); ok && id.Name == "delete" && len(x.Args) == 2 {
+				if _, isBuiltin := fi.info.Uses[id].(*types.Builtin); isBuiltin {
+					fi.mapAccess(x.Args[0], true)
+				}
+			}
 			fi.methodCall(x)
 			fi.funcCall(x)
 			fi.conversions(x)
